@@ -12,3 +12,5 @@ mod c06;
 mod gen_c06;
 #[cfg(kani)]
 mod gen_c13;
+#[cfg(kani)]
+mod c12;
